@@ -69,5 +69,83 @@ def build():
         locals={'result': K.Seq(K.Str), 'children': K.Seq(K.Str)},
         invariants={1: LoopInv('for child in value.children:', index='i', clauses=['len(children) == i'])},
         ensures=['True'])
+    add_q_payload(w)
     fam = Family('contracts.hints', w)
+    from pyvc.runner import Lemma
+    fam.lemmas.append(Lemma('q_payload_roundtrip', ['C06'], lemma_q_roundtrip))
     return fam
+
+
+# ------------------------------------------------------------------------------------------ C06: Q <-> signature payload
+
+SERCHILD = K.Atom('SerializedChild')
+KW = K.Rec(_connector=K.Str, _negated=K.Bool)
+PAYLOAD = K.Rec(_deconstructed=K.Bool, args=K.Seq(SERCHILD), kwargs=KW, type=K.Str)
+
+
+def add_q_payload(w):
+    """QSerialization.serialize_to_signature / deserialize_from_deconstructed: connector, negation and the number
+    of children survive the stored form (the children themselves go through the leaf codec: bounded suite)."""
+    w.consts['Q.default'] = 'AND'
+    w.module_names |= {'six'}
+    w.classes['Q']['fields']['default'] = K.Str
+    w.stub('q_path', params={'q': K.Ref('Q')}, returns=K.Str, pure=True,
+           note="'<module>.<class name>' of the Q object with django.db.models.query_utils shortened to django.db.models")
+    w.stub('serialize_to_signature', params={'value': None}, returns=SERCHILD, pure=True,
+           note='module-level dispatcher applied to a child (leaf codec; bounded suite)')
+    w.contract(
+        'QSerialization.serialize_to_signature', module=SER, serves=['C06'],
+        params={'cls': None, 'q': K.Ref('Q')}, returns=PAYLOAD,
+        requires=["q.default == 'AND'"],
+        locals={'kwargs': KW},
+        abstract={'q_cls = type(q)': ['q_cls = 0'],
+                  "cls_path = '%s.%s' % (q_cls.__module__, q_cls.__name__)": ['cls_path = q_path(q)'],
+                  "if cls_path.startswith('django.db.models.query_utils'):": ['_p = 0']},
+        ensures=[
+            # everything needed to rebuild the Q is written: connector (unless it is the default), negation, every child
+            "('_connector' in result['kwargs']) == (q.connector != 'AND')",
+            "implies(q.connector != 'AND', result['kwargs']['_connector'] == q.connector)",
+            "('_negated' in result['kwargs']) == q.negated",
+            "implies(q.negated, result['kwargs']['_negated'])",
+            "len(result['args']) == len(q.children)",
+            "forall(range(len(q.children)), lambda i: sel(result['args'], i) == serialize_to_signature(sel(q.children, i)))",
+            "result['_deconstructed']",
+        ])
+    w.stub('new_q', params={'args': K.Seq(SERCHILD)}, returns=K.Ref('Q'),
+           modifies=['Q.children', 'Q.connector', 'Q.negated', 'Q.default'],
+           ensures=['fresh_ref(result)', "result.connector == 'AND'", 'not result.negated',
+                    'len(result.children) == len(args)', "result.default == 'AND'"],
+           note='type_cls(*new_args, **kwargs): Q.__init__ with positional children only (kwargs is empty once '
+                '_negated/_connector are popped): connector AND, not negated')
+    w.stub('rebuild_args', params={'args': K.Seq(SERCHILD)}, returns=K.Seq(SERCHILD), pure=True,
+           ensures=['len(result) == len(args)'], note='lists become (lookup, value) tuples again; nested Q stay')
+    w.stub('Q.negate', params={'self': K.Ref('Q')}, modifies=['Q.negated[self]'],
+           ensures=['self.negated == (not old(self.negated))'], note="Django's tree.Node.negate()")
+    w.contract(
+        'QSerialization.deserialize_from_deconstructed', module=SER, serves=['C06'],
+        params={'cls': None, 'type_cls': None, 'args': K.Seq(SERCHILD), 'kwargs': KW},
+        returns=K.Ref('Q'),
+        locals={'new_args': K.Seq(SERCHILD)},
+        modifies=['Q.children', 'Q.connector', 'Q.negated', 'Q.default'],
+        abstract={'norm_keywords = six.PY2': ['norm_keywords = False'],
+                  'for arg in args:': ['new_args = rebuild_args(args)'],
+                  'q = type_cls(*new_args, **kwargs)': ['q = new_q(new_args)'],
+                  'if norm_keywords:': ['_n = 0']},
+        ensures=[
+            "result.connector == (kwargs['_connector'] if '_connector' in kwargs else 'AND')",
+            "result.negated == ('_negated' in kwargs and kwargs['_negated'])",
+            "len(result.children) == len(args)", 'fresh_ref(result)'])
+
+
+def lemma_q_roundtrip(fam):
+    """deserialize(serialize(q)) has q's connector, negation and child count - from the two contracts alone."""
+    from pyvc.lemmas import SpecEnv
+    env = SpecEnv(fam.world, {'q': K.Ref('Q'), 'p': PAYLOAD, 'r': K.Ref('Q')})
+    ser = fam.world.contracts['QSerialization.serialize_to_signature']
+    de = fam.world.contracts['QSerialization.deserialize_from_deconstructed']
+    hyps = [env.t("q.default == 'AND'")]
+    hyps += [env.t(e.replace('result', 'p')) for e in ser.ensures if 'serialize_to_signature(' not in e]
+    hyps += [env.t(e.replace('result', 'r').replace("kwargs", "p['kwargs']").replace('len(args)', "len(p['args'])"))
+             for e in de.ensures if 'fresh_ref' not in e]
+    goal = env.t('r.connector == q.connector and r.negated == q.negated and len(r.children) == len(q.children)')
+    return [('connector_negation_arity', env.assumptions + hyps, goal)]
